@@ -7,5 +7,22 @@ tmpl = open(os.path.join(here, "adversary_prompt.txt")).read()
 for l in open(os.path.join(os.path.dirname(here), "properties.jsonl")):
     p = json.loads(l)
     if p["id"] == pid:
-        print(tmpl.replace("{WT}", wt).replace("{TITLE}", p["title"]).replace("{STATEMENT}", p["statement"])
-              .replace("{QUANT}", p["quantifier"]["text"]).replace("{N}", n))
+        text = (tmpl.replace("{WT}", wt).replace("{TITLE}", p["title"]).replace("{STATEMENT}", p["statement"])
+                .replace("{QUANT}", p["quantifier"]["text"]).replace("{N}", n))
+        # changes already collected for this property: ask for different ones
+        sd = os.path.join(os.path.dirname(here), "seeded")
+        known = []
+        for sid in sorted(os.listdir(sd)) if os.path.isdir(sd) else []:
+            mp = os.path.join(sd, sid, "meta.json")
+            if os.path.exists(mp):
+                m = json.load(open(mp))
+                if m["property"] == pid:
+                    known.append("  - %s: needs %s" % (sid.split("-", 1)[1], m["needs_to_manifest"]))
+        if known:
+            text += ("\nChanges of the following kinds have ALREADY been collected for this property; produce changes that are "
+                     "DIFFERENT from all of them (different function or mechanism AND a different trigger condition). Favour "
+                     "mechanisms such as: behaviour that depends on table size or ID text, rarely used keyword arguments and "
+                     "flag combinations, state left behind by an earlier call (caches, layout, shared objects), error paths, "
+                     "interactions between two public operations, the command-line front ends:\n" + "\n".join(known) + "\n"
+                     "Additional rule: never use `git stash` (it is shared between worktrees); restore with `git checkout -- .` only.\n")
+        print(text)
